@@ -178,7 +178,9 @@ class Base:
 class WsgiHarness(Base):
     stack = 'wsgi'
     OPS = [('read', None), ('read', -1), ('read', 0), ('read', 1), ('read', 2), ('readline', None), ('readline', -1),
-           ('readline', 2), ('readline', 0), ('readlines', None), ('readlines', 2), ('readlines', 0), ('next',), ('exhaust',)]
+           ('readline', 2), ('readline', 0), ('readlines', None), ('readlines', 2), ('readlines', 0), ('next',), ('exhaust',),
+           # io semantics: ANY negative size means "no limit of my own" -- the body's limit still applies
+           ('read', -2), ('readline', -3), ('readlines', -2)]
 
     def __init__(self, data, cl, kind, rep, via):
         self.data, self.cl, self.kind, self.rep, self.via = data, cl, kind, rep, via
